@@ -409,6 +409,8 @@ func drive(args []string) int {
 		}
 		for try := 0; try < 3 && !forcedAddWindow(out, hook); try++ {
 		}
+		for try := 0; try < 3 && !forcedReplaceWhileStarting(out, hook); try++ {
+		}
 		hive.VerifHook = nil
 		for i := 0; i < 3; i++ {
 			if forcedLostWakeup(out) {
@@ -491,6 +493,20 @@ func forcedAddWindow(out *output, hook *sched.Gate) bool {
 	r.join(2, 3*unit)
 	hook.ReleaseAll()
 	return r.finish(out)
+}
+
+// forcedReplaceWhileStarting: task A of identifier 1 is due, has left the queue and stands at the start of its wrapper
+// (yield point taskexec-wrapper-start, before the executor's mutex); ExecuteAt(1, B) runs to the end meanwhile: B is the
+// tracked task of the identifier now. A goes on: it was replaced before its callback began and must not run; B must.
+func forcedReplaceWhileStarting(out *output, hook *sched.Gate) bool {
+	r := newRun("forced-replace-while-starting", "task", 1, 0)
+	hook.Hold("taskexec-wrapper-start")
+	r.add(1, r.since(), false, 0) // A, due at once
+	ok := waitParked(hook, "taskexec-wrapper-start")
+	hook.Free("taskexec-wrapper-start") // (B's wrapper passes; A stays parked until it is released)
+	r.add(1, r.since()+2*unit, false, 0) // B replaces A
+	hook.ReleaseAll()
+	return r.finish(out) && ok
 }
 
 // forcedLostWakeup - TimedImpl.broadcast_if_empty counterexample: two idle workers wait for elements; Add wakes one;
